@@ -156,6 +156,18 @@ def cargoInlineVersion (content : Text) (tbl : Node) : Option VerInfo :=
   else
     (tbl.children.filter (·.kind == "pair")).findSome? fun child => inlinePairVersion content child.children false
 
+/-- the scan of one pair of an inline table for a closed `string` child that follows the `bare_key` `package` -/
+def inlinePairPackage (content : Text) : List Node → Bool → Option Text
+  | [], _ => none
+  | pc :: rest, isPkg =>
+    if pc.kind == "bare_key" then inlinePairPackage content rest (nodeText content pc == "package".toList)
+    else if pc.kind == "string" && isPkg && closedString (nodeText content pc) then some (unquoteToml (nodeText content pc))
+    else inlinePairPackage content rest isPkg
+
+/-- `inline_table_package`: the real name of a renamed dependency -/
+def cargoInlinePackage (content : Text) (tbl : Node) : Option Text :=
+  (tbl.children.filter (·.kind == "pair")).findSome? fun child => inlinePairPackage content child.children false
+
 structure PairState where
   name : Option Text := none
   ver : Option VerInfo := none
@@ -174,7 +186,9 @@ def cargoPairStep (content : Text) (st : PairState) (child : Node) : PairState :
     else if st.dotted then
       if st.suffix == some "version".toList then { st with ver := some (stringVer content child) } else st
     else { st with ver := some (stringVer content child) }
-  else if child.kind == "inline_table" then { st with ver := cargoInlineVersion content child }
+  else if child.kind == "inline_table" then
+    { st with ver := cargoInlineVersion content child,
+              name := match cargoInlinePackage content child with | some real => some real | none => st.name }
   else st
 
 def cargoPair (content : Text) (pair : Node) : Option PkgInfo :=
